@@ -113,6 +113,20 @@ pub fn exec_prefix(input: &Value) -> (Value, Value) {
 /// op `site`: one type expression at one translation site, through the real parsers, resolver,
 /// template-context builders, visitors / schema builder and filter
 pub fn exec_site(input: &Value) -> (Value, Value) {
+    let has_map = input["mappings"].as_object().map(|o| !o.is_empty()).unwrap_or(false);
+    if has_map {
+        // the same type at the same site without the mapping table (C18: "nothing else changes")
+        let mut plain = input.clone();
+        plain["mappings"] = json!({});
+        let (_, base) = exec_site(&plain);
+        let (in2, mut imp) = exec_site_inner(input);
+        imp["rendered_nomap"] = base["rendered"].clone();
+        return (in2, imp);
+    }
+    exec_site_inner(input)
+}
+
+fn exec_site_inner(input: &Value) -> (Value, Value) {
     let imp = guarded(|| {
         let r = match RTy::from_json(&input["rty"]) {
             Some(r) => r,
@@ -278,5 +292,59 @@ pub fn run(out: &mut Out, tier: &str, rng: &mut Rng) {
         "unknown", "User | null[]", "Map<string, User>", "", "[]", "null", "User[][]", " | null", "[User][]"];
     for p in pool {
         out.case("prefix", json!({"s": p}), json!({"gen": "pool"}));
+    }
+}
+
+/// group `mappings` (C18)
+pub fn run_mappings(out: &mut Out, tier: &str, rng: &mut Rng) {
+    // 3b. C18: mapping tables over plain and generic names at every constructor position of every site
+    let tables = [
+        json!({"PathBuf": "string"}),
+        json!({"Uuid": "string", "PathBuf": "string", "Timestamp": "number"}),
+        json!({"DateTime<Utc>": "string", "Flag": "boolean"}),
+    ];
+    let mapped_names = ["PathBuf", "Uuid", "Timestamp", "DateTime<Utc>", "Flag", "User"];
+    let mut kk = 0usize;
+    for name in mapped_names {
+        let n = RTy::Named(name.to_string());
+        let other = RTy::Named("User".to_string());
+        let b = |t: &RTy| Box::new(t.clone());
+        let ctxs: Vec<RTy> = vec![
+            n.clone(), RTy::Opt(b(&n)), RTy::Vec(b(&n)), RTy::HSet(b(&n)), RTy::Ref(b(&n)), RTy::Res2(b(&n), b(&other)),
+            RTy::HMap(Box::new(RTy::Prim("String".into())), b(&n)), RTy::HMap(b(&n), b(&other)), RTy::BMap(b(&n), b(&n)),
+            RTy::Tup(vec![n.clone(), other.clone()]), RTy::Tup(vec![other.clone(), n.clone(), RTy::Prim("i32".into())]),
+            RTy::Vec(Box::new(RTy::Opt(b(&n)))), RTy::Opt(Box::new(RTy::Vec(b(&n)))), RTy::Vec(Box::new(RTy::Vec(b(&n)))),
+            RTy::Opt(Box::new(RTy::HMap(Box::new(RTy::Prim("String".into())), Box::new(RTy::Vec(b(&n)))))),
+            RTy::Res2(Box::new(RTy::Vec(b(&n))), Box::new(RTy::Prim("String".into()))),
+            RTy::Vec(Box::new(RTy::Tup(vec![n.clone(), n.clone()]))),
+        ];
+        for c in &ctxs {
+            for site in SITES {
+                for mode in ["ts", "zod"] {
+                    for t in &tables {
+                        // a generic name is only a supported input when the table maps it
+                        if name.contains('<') && t.get(name).is_none() {
+                            continue;
+                        }
+                        kk += 1;
+                        if tier != "thorough" && kk % 2 == 0 {
+                            continue;
+                        }
+                        out.case("site", json!({"rty": c.to_json(), "site": site, "mode": mode, "mappings": t}),
+                                 json!({"gen": "mapping"}));
+                    }
+                }
+            }
+        }
+    }
+    // random types over mapped and unmapped names
+    let n = if tier == "thorough" { 20000 } else { 1500 };
+    for i in 0..n {
+        let depth = 1 + rng.below(4);
+        let r = rty::random_named(rng, depth, &["PathBuf", "Uuid", "User", "Mode", "Timestamp"]);
+        let site = SITES[rng.below(SITES.len())];
+        let mode = if i % 2 == 0 { "zod" } else { "ts" };
+        let t = &tables[rng.below(2)];
+        out.case("site", json!({"rty": r.to_json(), "site": site, "mode": mode, "mappings": t}), json!({"gen": "maprand"}));
     }
 }
